@@ -14,6 +14,7 @@ import (
 	"sort"
 	"strings"
 	"sync"
+	"sync/atomic"
 
 	"github.com/magisterquis/curlrevshell/internal/iobroker"
 	"github.com/magisterquis/curlrevshell/lib/opshell"
@@ -193,6 +194,7 @@ type World struct {
 	rootCancel context.CancelFunc
 	doRet      chan error
 	doReturned bool
+	doSeq      atomic.Int64 /* Position of Do's return in the global order of log records. */
 	shutdown   bool
 	ichClosed  bool
 	freeRun    bool /* Teardown: gates no longer block. */
@@ -248,7 +250,11 @@ func New(p *Profile) *World {
 	for _, g := range quiesce.Dump() {
 		w.old[g.ID] = true /* Leftovers of earlier executions are not ours. */
 	}
-	go func() { w.doRet <- w.b.Do(w.root) }()
+	go func() {
+		err := w.b.Do(w.root)
+		w.doSeq.Store(seq.Add(1))
+		w.doRet <- err
+	}()
 	w.lastGS = quiesce.Wait()
 	return w
 }
